@@ -105,22 +105,24 @@ def parseNatDigits : List Char → Option Nat
   | [] => none
   | cs => cs.foldlM (fun acc c => (digitVal c).map (fun d => acc * 10 + d)) 0
 
+/-- One optional sign, then digits only. -/
+def parseSigned : Str → Option Int
+  | '-' :: rest => (parseNatDigits rest).map (fun n => -(n : Int))
+  | '+' :: rest => (parseNatDigits rest).map (fun n => (n : Int))
+  | cs => (parseNatDigits cs).map (fun n => (n : Int))
+
 /-- Rust `i64::from_str`: one optional sign, digits, range check. -/
 def parseI64 (s : Str) : Option Int :=
-  let r : Option Int :=
-    match s with
-    | '-' :: rest => (parseNatDigits rest).map (fun n => -(n : Int))
-    | '+' :: rest => (parseNatDigits rest).map (fun n => (n : Int))
-    | cs => (parseNatDigits cs).map (fun n => (n : Int))
-  r.bind fun i => if inI64 i then some i else none
+  (parseSigned s).bind fun i => if inI64 i then some i else none
+
+/-- One optional `+`, then digits only. -/
+def parseUnsigned : Str → Option Nat
+  | '+' :: rest => parseNatDigits rest
+  | cs => parseNatDigits cs
 
 /-- Rust `u64::from_str`: optional `+`, digits, range check. -/
 def parseU64 (s : Str) : Option Nat :=
-  let r :=
-    match s with
-    | '+' :: rest => parseNatDigits rest
-    | cs => parseNatDigits cs
-  r.bind fun n => if n ≤ u64Max then some n else none
+  (parseUnsigned s).bind fun n => if n ≤ u64Max then some n else none
 
 def natToStr (n : Nat) : Str := (toString n).toList
 def intToStr (i : Int) : Str := (toString i).toList
